@@ -1,4 +1,4 @@
-CONSTANTS MaxDepth = 14 MaxHandles = 8 Emit = TRUE
+CONSTANTS MaxDepth = 14 MaxHandles = 8 Emit = TRUE Msgs = {"m1", "m2"}
 SPECIFICATION MSpec
 VIEW MView
 CONSTRAINT Bound
